@@ -103,8 +103,8 @@ type Result struct {
 	Resp     *pluginpb.CodeGeneratorResponse // nil if stdout did not parse
 	Stdout   []byte
 	Stderr   string
-	ExitCode int           // -1 if killed by signal / timeout
-	Signal   string        // non-empty if terminated by a signal
+	ExitCode int    // -1 if killed by signal / timeout
+	Signal   string // non-empty if terminated by a signal
 	TimedOut bool
 	Wall     time.Duration
 	MaxRSSKB int64
@@ -159,9 +159,9 @@ func (r *Result) Crashed() (bool, string) {
 
 // Opts configures a run.
 type Opts struct {
-	Timeout   time.Duration // default 60s
-	MemLimitKB int64        // RLIMIT_AS in KB via prlimit wrapper; 0 = none
-	Env       []string      // extra env (e.g. GOMAXPROCS=1)
+	Timeout    time.Duration // default 60s
+	MemLimitKB int64         // RLIMIT_AS in KB via prlimit wrapper; 0 = none
+	Env        []string      // extra env (e.g. GOMAXPROCS=1)
 }
 
 // Run executes one plugin on a request.
